@@ -79,6 +79,10 @@ def run(ck):
     worst = 0.0
     for k in range(nrun):
         d = gen_closed(rng, bounded=True)
+        if k % 3 == 2:      # non-integer (dyadic, so exactly representable) jump sizes from an integer-typed initial state
+            for e in d["events"]:
+                for tr in e["trans"]:
+                    tr["mag"] = ["0.5", "2.5", "1.25", "1"][int(rng.integers(0, 4))]
         inp = dict(definition=d, seed=int(k))
         try:
             m, order = mg.build(d, route="event")
@@ -107,7 +111,18 @@ def run(ck):
                     tots = np.asarray(path).sum(axis=1)
                     if not np.all(tots == sum(x0)):
                         ck.violation("stochastic-total-changes", "path total takes values %s (start %d), exact=%s"
-                                     % (sorted(set(tots.tolist()))[:5], sum(x0), exact), dict(inp, theta=theta, x0=x0, exact=exact))
+                                     % (sorted(set(tots.tolist()))[:5], sum(x0), exact),
+                                     dict(inp, theta=theta, x0=x0, exact=exact, np_seed=int(ck.seed * 1000 + k)))
+                # the same on an output grid, several runs per call (exact rows; tau-leap rows are interpolated between leaps)
+                np.random.seed(int(ck.seed * 1000 + k + 7))
+                with pg.quiet():
+                    out = m.solve_stochast(np.linspace(0.0, 1.5, 7), 3, exact=exact, full_output=True)
+                for r, path in enumerate(out[0]):
+                    tots = np.asarray(path, dtype=float).sum(axis=1)
+                    if not np.all(np.abs(tots - sum(x0)) <= 1e-9 * (1 + sum(x0))):
+                        ck.violation("stochastic-total-changes-on-grid", "run %d of a gridded call: row totals %s (start %d), exact=%s"
+                                     % (r, sorted(set(np.round(tots, 6).tolist()))[:5], sum(x0), exact),
+                                     dict(inp, theta=theta, x0=x0, exact=exact, grid=True, np_seed=int(ck.seed * 1000 + k + 7)))
             ck.case(dict(run=inp), nontrivial=True)
         except Exception as e:
             ck.violation("run-error", "%s: %s" % (type(e).__name__, str(e)[:200]), inp)
@@ -119,6 +134,21 @@ def replay(ck, data):
     inp = data["input"]
     d = inp["definition"]
     m, order = mg.build(d, route=inp.get("route", "event"), rng=np.random.default_rng(inp.get("seed", 0)))
+    if "np_seed" in inp:
+        import pg
+        m.parameters = inp["theta"]
+        m.initial_values = ([int(v) for v in inp["x0"]], np.float64(0))
+        np.random.seed(int(inp["np_seed"]))
+        with pg.quiet():
+            if inp.get("grid"):
+                paths = m.solve_stochast(np.linspace(0.0, 1.5, 7), 3, exact=inp["exact"], full_output=True)[0]
+            else:
+                paths = m.solve_stochast(1.5, 2, exact=inp["exact"], full_output=True)[0]
+        for path in paths:
+            tots = np.asarray(path, dtype=float).sum(axis=1)
+            if not np.all(np.abs(tots - sum(inp["x0"])) <= 1e-9 * (1 + sum(inp["x0"]))):
+                return "path totals %s, start %d" % (sorted(set(np.round(tots, 6).tolist()))[:5], sum(inp["x0"]))
+        return None
     pt = mg.random_point(np.random.default_rng(inp.get("seed", 0)), d)
     pv = c01.pyg_values(m, d, pt)
     s = sum(pv["ode"])
